@@ -40,6 +40,12 @@ func nativeRewrite(w *World, pkg string, tmp string) (map[string]string, error) 
 		if parts[0] != pkg {
 			continue
 		}
+		if i := strings.LastIndex(callee, "@"); i >= 0 {
+			if callee[i+1:] != pkg {
+				continue
+			}
+			callee = callee[:i]
+		}
 		stubFor[callee] = parts[1]
 	}
 	if len(stubFor) == 0 {
